@@ -326,7 +326,15 @@ func (x *c20Exec) eval(st *c20State, e ast.Expr) *c20Val {
 	}
 	switch t := e.(type) {
 	case *ast.Ident:
-		if _, ok := x.info.ObjectOf(t).(*types.Var); ok {
+		if v, ok := x.info.ObjectOf(t).(*types.Var); ok {
+			// a variable captured from the enclosing function that has exactly one definition there
+			// stands for its defining expression (main author: added after a fix moved a computation
+			// out of the goroutine literal)
+			if x.g != nil && x.g.Body != nil && (v.Pos() < x.g.Body.Pos() || v.Pos() > x.g.Body.End()) && x.roles[v] == "" {
+				if rhs := singleDefOf(x.info, v); rhs != nil {
+					return x.eval(st, rhs)
+				}
+			}
 			return x.lookup(st, t)
 		}
 	case *ast.SelectorExpr:
